@@ -6,8 +6,6 @@ import (
 	"math/big"
 	"sort"
 	"strings"
-
-	"github.com/indexsupply/shovel/eth"
 )
 
 // The direct property oracle: the rows the declaration asks for, computed
@@ -181,7 +179,7 @@ func decide(f Flt, v exVal, db []RefTable) (res *bool, ok bool, err error) {
 		case "contains", "!contains":
 			hit := false
 			for _, a := range f.Args {
-				if subslice(v.B, eth.DecodeHex(a)) {
+				if subslice(v.B, unhex(a)) {
 					hit = true
 				}
 			}
@@ -189,7 +187,7 @@ func decide(f Flt, v exVal, db []RefTable) (res *bool, ok bool, err error) {
 		case "eq", "ne":
 			hit := false
 			for _, a := range f.Args {
-				if bytes.Equal(v.B, eth.DecodeHex(a)) {
+				if bytes.Equal(v.B, unhex(a)) {
 					hit = true
 				}
 			}
